@@ -769,6 +769,7 @@ def run(tier):
                               {"unit": "kw:" + role, "lang": lang, "stage": "closure", "source": first["source"], "file": f, "target": t, "why": why, "configs": []},
                               "%s output of the %s keyword pack: `%s` refers to `%s`: %s" % (lang, role, f, t, why))
     kw_stats = prober.stats
+    predeclared_failures = []
     for (lang, role), bad in sorted(kw_results.items()):
         for k, r in sorted(bad.items(), key=lambda kv: str(kv[0])):
             if r["status"] == "reject":
@@ -778,7 +779,15 @@ def run(tier):
                 key = "C09|%s|keyword-pack|%s|%s" % (lang, role, sha(" ".join(k[1])))
                 what = "%s output of a module using %d reserved names as %s does not build although each name alone does: %s" % (lang, len(k[1]), role, U.first_errors(j["text"], 1))
             else:
+                if U.name_class(lang, k) == "predeclared":
+                    # names given a meaning by system headers / the JS global object (NULL, EOF, size_t, constructor, ...) are not
+                    # reserved words: no generator can avoid every macro of <stdio.h>; recorded, not judged
+                    predeclared_failures.append("%s|%s|%s" % (lang, role, k))
+                    continue
                 key = "C09|%s|%s|%s|%s" % (lang, U.name_class(lang, k), role, k)
+                if role == "type":
+                    # one root cause (type names are never escaped): one key per language, the names go into the message
+                    key = "C09|%s|keyword|type" % lang
                 what = "%s output does not build when a %s is named `%s` (%s): %s" % (lang, role, k, " ".join(os.path.basename(x) if x.startswith("/") else x for x in j["plain"]), U.first_errors(j["text"], 1))
             w = {"unit": "kw:" + role, "lang": lang, "std": j["std"], "source": r["source"], "file": j["rel"], "cmd": " ".join(j["plain"]), "errors": U.first_errors(j["text"], 6),
                  "failing_files": sorted({"%s%s" % (x["rel"], (" -std=" + x["std"]) if x["std"] else "") for x in r["fails"]}), "configs": []}
